@@ -7,9 +7,9 @@ cd $wt || exit 2
 git diff -- spatialpandas > /tmp/wt/$id.patch
 echo "== patch lines: $(wc -l < /tmp/wt/$id.patch)"
 echo "== demo WITH change"; timeout 600 /venv/bin/python demo_$id.py 2>&1 | grep -v conda | tail -3; echo "exit=${PIPESTATUS[0]}"
-git stash -q -- spatialpandas
+git apply -R /tmp/wt/$id.patch
 echo "== demo WITHOUT change"; timeout 600 /venv/bin/python demo_$id.py 2>&1 | grep -v conda | tail -3; echo "exit=${PIPESTATUS[0]}"
-git stash pop -q
+git apply /tmp/wt/$id.patch
 echo "== test suite WITH change"
 timeout 1500 /venv/bin/python -m pytest -q -p no:cacheprovider --timeout=900 --continue-on-collection-errors --deselect demo_$id.py 2>&1 | grep -v conda | tail -1
 } > $out 2>&1
